@@ -34,7 +34,7 @@ NoLast == [k |-> "none", r |-> 0, hc |-> <<>>, th |-> 0, oi |-> C!OsClear]
 Init == /\ \E hk \in Handlers, att \in BOOLEAN :
              cfg = [arch |-> "x64", em |-> "asm", hk |-> hk, att |-> att, vi |-> TRUE, va |-> TRUE, fast |-> FALSE]
         /\ proj = [ss |-> <<0>>, sd |-> <<0>>, nl |-> 1, nf |-> 0, nr |-> 0, na |-> 0,
-                   nn |-> 0, cu |-> 0, cs |-> 0, off |-> 0, nv |-> 0, nb |-> 0, gf |-> 0, gb |-> 0, gd |-> 0]
+                   nn |-> 0, cu |-> 0, cs |-> 0, off |-> 0, nv |-> 0, nb |-> 0, gf |-> 0, gb |-> 0, gd |-> 0, eh |-> 1]
         /\ os = C!OsClear
         /\ pend = 0
         /\ bound = {}
@@ -107,7 +107,7 @@ Next == \E k \in Kinds, a \in Args, oi \in OneShots :
 Spec == Init /\ [][Next]_mvars
 
 (* Refinement: every implementation step is the contract's Call with the reported outcome. *)
-ContractStep == C!Call(last'.k, last'.r, last'.hc, last'.th, last'.oi, proj', os', 0, 0, 0, last'.r)
+ContractStep == C!Call(last'.k, last'.r, last'.hc, last'.th, last'.oi, proj', os', 0, 0, 0, last'.r, 0, 0)
 RefinesContract == [][ContractStep]_mvars
 
 (* the headline invariant, stated directly as well *)
